@@ -28,12 +28,17 @@ def ref_cal(cal, x):
             raise RefCalibrationError(f"{x} is outside the closed range of the spline points")
         raise RefUndefined("non-finite query")
     q = Fraction(x)
+    # An integer query beyond 2**53 may not be a double. Calibrators are evaluated in double arithmetic, so the
+    # *value* may be that of the nearest double (the allowance below is the exact effect of that rounding, folded
+    # into the magnitude so that close() grants it). Range membership and the choice of a step or segment are
+    # discrete decisions and stay exact: Python compares an int with a float exactly.
+    qf = Fraction(float(x)) if isinstance(x, int) and abs(x) < 2 ** 1000 else q
     if cal["t"] == "poly":
         total, mag = Fraction(0), Fraction(0)
         for c, e in cal["terms"]:
             t = Fraction(c) * q ** e
             total += t
-            mag += abs(t)
+            mag += abs(t) + abs(Fraction(c) * (q ** e - qf ** e)) * 10 ** 9
         if mag > Fraction(10) ** 300:
             raise RefUndefined("terms beyond the float range")
         return total, mag, False
@@ -52,7 +57,8 @@ def ref_cal(cal, x):
         if abs((y1 - y0) / (x1 - x0)) > Fraction(10) ** 300:
             raise RefUndefined("slope beyond the float range")
         v = y0 + (y1 - y0) * (q - x0) / (x1 - x0)
-        return v, abs(y0) + abs(y1) + abs((y1 - y0) * (q - x0) / (x1 - x0)), q == x0
+        slack = abs((y1 - y0) / (x1 - x0)) * abs(q - qf) * 10 ** 9
+        return v, abs(y0) + abs(y1) + abs((y1 - y0) * (q - x0) / (x1 - x0)) + slack, q == x0
     if not cal["extrapolate"]:
         raise RefCalibrationError(f"{x} outside [{cal['points'][0][0]}, {cal['points'][-1][0]}] without extrapolation")
     if order == 0:
@@ -62,7 +68,7 @@ def ref_cal(cal, x):
     if abs((y1 - y0) / (x1 - x0)) > Fraction(10) ** 300:
         raise RefUndefined("slope beyond the float range")
     v = y0 + (y1 - y0) * (q - x0) / (x1 - x0)
-    mag = abs(y0) + abs(y1) + abs((y1 - y0) / (x1 - x0)) * (abs(q) + abs(x0))
+    mag = abs(y0) + abs(y1) + abs((y1 - y0) / (x1 - x0)) * (abs(q) + abs(x0) + abs(q - qf) * 10 ** 9)
     if mag > Fraction(10) ** 300:
         raise RefUndefined("terms beyond the float range")
     return v, mag, False
@@ -186,7 +192,11 @@ def st_cal(exact=False, orders=(0, 1)):
     else:
         coef = st.one_of(st.sampled_from([0.0, 1.0, -1.0, 0.5, -0.5, 1e-3, 1e6, 2.5, -273.15]),
                          st.floats(-1e6, 1e6, allow_nan=False, allow_infinity=False))
-        knot = st.one_of(st.integers(-100, 70000).map(float), st.floats(-1e6, 1e6, allow_nan=False))
+        # (with knots at and beyond 2**53, where neighbouring integers are no longer doubles)
+        knot = st.one_of(st.integers(-100, 70000).map(float), st.floats(-1e6, 1e6, allow_nan=False),
+                         st.integers(-100, 70000).map(float),
+                         st.sampled_from([2.0 ** 53, 2.0 ** 53 + 2, 2.0 ** 62, 2.0 ** 63, 2.0 ** 63 + 2048, 2.0 ** 64,
+                                          -(2.0 ** 53), -(2.0 ** 63)]))
         yval = st.one_of(st.sampled_from([0.0, 1.0, -1.0, 100.0]), st.floats(-1e6, 1e6, allow_nan=False))
         exps = st.integers(0, 5)
 
